@@ -73,3 +73,26 @@ def tonePulses (pulses : List (Nat × Nat)) : List Nat :=
   pulses.flatMap fun cd => List.replicate cd.1 cd.2
 
 end EdgeSpec
+
+namespace EdgeSpec
+
+/-- What a tape *is*, format-independently: pulses (each ends with an edge) and gaps
+(silence: time passes, no edge). -/
+inductive Ev
+  | pulse (d : Nat)
+  | gap (d : Nat)
+  deriving DecidableEq, Repr
+
+/-- The edge times of a sequence of events played from time `t`. -/
+def playEvents (t : Int) : List Ev → List Int
+  | [] => []
+  | .pulse d :: r => (t + d) :: playEvents (t + d) r
+  | .gap d :: r => playEvents (t + d) r
+
+/-- Total duration of a sequence of events. -/
+def evTotal : List Ev → Int
+  | [] => 0
+  | .pulse d :: r => d + evTotal r
+  | .gap d :: r => d + evTotal r
+
+end EdgeSpec
